@@ -80,6 +80,13 @@ func (g gen) leaf(bad float64) bt.Filter {
 		if f.Ek != "none" {
 			f.E = genQuals[1+g.pick(len(genQuals)-1)]
 		}
+		// a bound that is present but empty is a bound (the empty string), not "unset"
+		if f.Sk != "none" && g.chance(0.12) {
+			f.S = j.B{}
+		}
+		if f.Ek != "none" && g.chance(0.12) {
+			f.E = j.B{}
+		}
 		return f
 	case 7:
 		f := bt.Filter{K: "valrange"}
@@ -90,6 +97,12 @@ func (g gen) leaf(bad float64) bt.Filter {
 		}
 		if f.Ek != "none" {
 			f.E = nonEmpty[g.pick(len(nonEmpty))]
+		}
+		if f.Sk != "none" && g.chance(0.12) {
+			f.S = j.B{}
+		}
+		if f.Ek != "none" && g.chance(0.12) {
+			f.E = j.B{}
 		}
 		return f
 	case 8:
